@@ -297,12 +297,12 @@ fn no_timer(layout: &Layout) -> Layout {
   l
 }
 
-fn sentinel_for(alphabet: &[KeyCode], layout: &Layout, not: Option<KeyCode>) -> KeyCode {
+fn sentinel_for(alphabet: &[KeyCode], layout: &Layout, not: Option<KeyCode>) -> Option<KeyCode> {
   let used = crate::h_layouts::layout_keys(layout);
   for k in [KeyCode::F13, KeyCode::F14, KeyCode::F15, KeyCode::F16, KeyCode::F17, KeyCode::KPASTERISK, KeyCode::SCROLLLOCK].iter() {
-    if !used.contains(k) && !alphabet.contains(k) && Some(*k) != not { return *k; }
+    if !used.contains(k) && !alphabet.contains(k) && Some(*k) != not { return Some(*k); }
   }
-  KeyCode::F18
+  None
 }
 
 
@@ -356,7 +356,7 @@ fn timed_case(rng: &mut Rng, force_signal: bool) -> (Layout, Vec<TimedStep>, Str
 
 extern "C" fn noop_handler(_: libc::c_int) {}
 
-fn timed_runs(lean: &mut Lean, rng: &mut Rng, n: usize, findings: &mut Vec<serde_json::Value>, stats: &mut (u64, u64, u64, u64)) {
+fn timed_runs(lean: &mut Lean, rng: &mut Rng, n: usize, findings: &mut Vec<serde_json::Value>, stats: &mut (u64, u64, u64, u64, u64)) {
   unsafe {
     // no SA_RESTART: epoll_wait must return EINTR
     let mut sa: libc::sigaction = std::mem::zeroed();
@@ -489,6 +489,13 @@ fn timed_runs(lean: &mut Lean, rng: &mut Rng, n: usize, findings: &mut Vec<serde
             let last_deadline = written_at[j] + 1000 * (d + (counts[gi] as u64 - 1) * iv);
             if last_deadline > read_by[j + 1] + 1000 { problem = Some(format!("{} repeat chords were written although only the deadlines up to {} us had passed when the cancelling record had been read ({} us)", counts[gi], last_deadline, read_by[j + 1])); }
           }
+          // liveness, guarded like the signal check: on a machine that demonstrably wakes threads on time right now, a gap
+          // that lasted at least delay + 60 ms must contain a chord (these chords are never empty: F20 is never held)
+          let gap_end = if j + 1 < n_steps { written_at[j + 1] } else { 0 };
+          if counts[gi] == 0 && worst_nap_us < 5_000 && gap_end >= read_by[j] + 1000 * (d + 60) {
+            problem = Some(format!("no repeat chord was written although the timer had been armed for {} ms (delay {} ms)", (gap_end - read_by[j]) / 1000, d));
+          }
+          if worst_nap_us < 5_000 && gap_end >= read_by[j] + 1000 * (d + 60) { stats.4 += 1; }
           stats.2 += counts[gi] as u64;
         }
       }
@@ -627,7 +634,7 @@ pub fn run(opts: &Opts) -> i32 {
     }
   }
 
-  let mut timed_stats = (0u64, 0u64, 0u64, 0u64);
+  let mut timed_stats = (0u64, 0u64, 0u64, 0u64, 0u64);
   {
     let n_timed = opts.num("timed", if thorough { 60 } else { 8 }) as usize;
     let before = findings.len();
@@ -650,8 +657,9 @@ pub fn run(opts: &Opts) -> i32 {
     let layout_txt = fmt::layout(&layout);
     let reply = lean.ask(&format!("L {}", layout_txt));
     if reply != "wf" { continue; }
-    let sentinel = sentinel_for(alphabet, &layout, None);
-    let marker = sentinel_for(alphabet, &layout, Some(sentinel));
+    // a foreign key closes each run (and another one delimits concurrent runs): a layout that leaves none free is skipped
+    let sentinel = match sentinel_for(alphabet, &layout, None) { Some(k) => k, None => continue };
+    let marker = sentinel_for(alphabet, &layout, Some(sentinel)).unwrap_or(sentinel);
     for _ in 0..per_layout {
       let tablet = rng.chance(2, 5);
       let case = gen_case(&mut rng, alphabet, tablet, thorough);
@@ -763,7 +771,7 @@ pub fn run(opts: &Opts) -> i32 {
     "cases": cases, "distinct_nontrivial": distinct.len(),
     "rule": "each case = one run of the REAL driver (mio/epoll poll, DevInputReader, TabletModeSwitchReader, DevInputWriter) around the real loop in its own thread over pipes: input_event records (key events of a semi-well-formed history over the layout's alphabet, surrounded by MSC_SCAN / SYN_REPORT / autorepeat / unknown-code / LED records; tablet-switch On/Off and foreign switch records in 2 of 5 runs) written in random chunks of whole records at random moments; half of the tablet runs are CONCURRENT (no waiting between the two devices: both become readable while the loop is busy, the output must be the model's for some interleaving of the two per-device logs, request E2EANY), the others synchronised at every change of device (the read order is the write order); the bytes read from the uinput pipe are compared with the model's wireOut; the run is closed by an EPIPE on the uinput pipe which the loop must return. non-trivial and distinct = distinct (layout, read log) with at least two sends",
     "records_written": records, "junk_records": junk, "writes": writes, "runs_with_two_or_more_writes": multi, "runs_with_a_chunk_over_8_records": big, "largest_chunk_records": max_chunk,
-    "runs_with_tablet_switch": tablet_runs, "concurrent_two_device_runs": concurrent_runs, "tablet_events": tablet_events, "output_bytes": out_bytes, "sends": sends, "tablet_records_compared_alone": tdec_checked, "full_buffer_runs": full_buffer_done, "timed_runs_on_the_real_clock": timed_stats.0, "chord_arrivals_checked_against_their_deadline": timed_stats.1, "chords_in_timed_runs": timed_stats.2, "chords_after_a_signal_judged_for_lateness": timed_stats.3,
+    "runs_with_tablet_switch": tablet_runs, "concurrent_two_device_runs": concurrent_runs, "tablet_events": tablet_events, "output_bytes": out_bytes, "sends": sends, "tablet_records_compared_alone": tdec_checked, "full_buffer_runs": full_buffer_done, "timed_runs_on_the_real_clock": timed_stats.0, "chord_arrivals_checked_against_their_deadline": timed_stats.1, "chords_in_timed_runs": timed_stats.2, "chords_after_a_signal_judged_for_lateness": timed_stats.3, "armed_gaps_judged_for_at_least_one_chord": timed_stats.4,
     "divergences": divergences, "monitor_violations": violations, "samples": samples, "findings": findings.len()
   });
   if let Some(p) = opts.get("stats") { std::fs::write(p, serde_json::to_string_pretty(&stats).unwrap()).unwrap(); }
